@@ -822,4 +822,22 @@ def rule_closed_origin(ctx, cfg, F):
                           "the closed variant is constructed on a zero-length read from a per-message descriptor (%s on %s): if a sender dies in the middle of a multi-fragment "
                           "message the receiver reports the whole channel as closed although other senders may survive" % (callee, sorted(map(repr, tr.roots_of_operand(t["args"][0])))[:2]),
                           f.path, f.loc(cb, si), config=cfg)
+    # the other wrong classification of the same edge: a per-message descriptor's end-of-stream reported as an I/O error value.
+    # The receiver set passes I/O errors up as the failure of select() itself, and the router treats that as fatal for every route.
+    for f in sorted(F.fns.values(), key=lambda x: x.path):
+        if not f.path.startswith("platform::unix"):
+            continue
+        tr = Tracer(f)
+        for b, t in f.calls_to("libc::recv"):
+            if any(r.kind == "param" and not r.field_names() for r in tr.roots_of_operand(t["args"][0])):
+                continue
+            for facts, rb, path in _result_relations(f, b):
+                rels = {x[1] for x in facts if x[0] == "rel"}
+                if rels != {"eq"}:
+                    continue
+                ctors = {x[1] for x in facts if x[0] == "ctor"}
+                if any(c.endswith("UnixError::Errno") or c.endswith("::Errno") for c in ctors) and not any(c.split("::")[-1] in CLOSED_VARIANTS for c in ctors):
+                    R.violate("%s:libc::recv==0:as-io-error" % f.path, "the end of a per-message descriptor's stream (sender died mid-message) is reported as an I/O error value: "
+                              "a receiver set returns it as the failure of select() and the router stops serving every route", f.path, f.loc(rb), config=cfg)
+                    break
     R.count("closed_constructions[%s]" % cfg, n)
